@@ -312,6 +312,9 @@ func (e *env) doNia3(stream string, ik [16]byte, count uint32, bearer, dir uint8
 	id := r.NextID()
 	in := map[string]interface{}{"ik": hk.Hex(ik[:]), "count": count, "bearer": bearer, "direction": dir, "msg": hk.Hex(msg), "length": length}
 	msg0 := hk.Exact(msg)
+	if hk.BeyondLen(msg, func(w []byte) { _, _ = security.NIA3(ik, count, bearer, dir, w, length) }) {
+		e.fail("security.NIA3", "writes-beyond-message", in, "octets of the caller's array beyond len(msg) were overwritten")
+	}
 	var out []byte
 	var err error
 	panicked, pv := hk.Catch(func() { out, err = security.NIA3(ik, count, bearer, dir, msg, length) })
@@ -363,6 +366,9 @@ func (e *env) doEnc(stream string, key [16]byte, count uint32, bearer, dir uint8
 	r := e.r
 	id := r.NextID()
 	in := map[string]interface{}{"alg": 3, "key": hk.Hex(key[:]), "count": count, "bearer": bearer, "direction": dir, "payload": hk.Hex(payload)}
+	if hk.BeyondLen(payload, func(w []byte) { _ = security.NASEncrypt(security.AlgCiphering128NEA3, key, count, bearer, dir, w) }) {
+		e.fail("security.NASEncrypt", "writes-beyond-payload", in, "octets of the caller's array beyond len(payload) were overwritten")
+	}
 	key0 := key
 	out, err, panicked, pv := enc3(key, count, bearer, dir, payload)
 	valid := bearer <= 31 && dir <= 1
@@ -441,6 +447,11 @@ func (e *env) doMac(stream string, key [16]byte, count uint32, bearer, dir uint8
 	r := e.r
 	id := r.NextID()
 	in := map[string]interface{}{"alg": 3, "key": hk.Hex(key[:]), "count": count, "bearer": bearer, "direction": dir, "msg": hk.Hex(msg)}
+	if hk.BeyondLen(msg, func(w []byte) {
+		_, _ = security.NASMacCalculate(security.AlgIntegrity128NIA3, key, count, bearer, dir, w)
+	}) {
+		e.fail("security.NASMacCalculate", "writes-beyond-message", in, "octets of the caller's array beyond len(msg) were overwritten")
+	}
 	msg0 := hk.Exact(msg)
 	key0 := key
 	var out []byte
@@ -728,6 +739,27 @@ func run(r *hk.Run) {
 			e.doNia3("random", key, cnt, b, d, e.bitsMsg(bits, n-(bits+7)/8, rng.Intn(3)), uint32(bits))
 		case 4:
 			e.doZuc("random", rng.Bytes(16), rng.Bytes(16), uint32(rng.Intn(12)))
+		}
+	}
+
+	// (3b) block-structured messages (zero / all-ones / single-bit / repeated 4-, 8-, 16-octet blocks): EIA3
+	// accumulates keystream words per set message bit, zero words and equal words are its special cases
+	for j := 0; j < r.N(240, 4000); j++ {
+		key := e.key(3 + rng.Intn(6))
+		cnt := e.count(rng.Intn(25))
+		b, d := uint8(rng.Intn(32)), uint8(rng.Intn(2))
+		bs := []int{4, 4, 8, 16}[rng.Intn(4)]
+		msg := hk.BlockMsg(rng, bs, 1+rng.Intn(7), rng.Intn(bs+1))
+		if rng.Intn(4) == 0 {
+			msg = append(rng.Bytes(1+rng.Intn(3)), msg...)
+		}
+		switch j % 4 {
+		case 0:
+			e.doNia3("block-structured", key, cnt, b, d, msg, uint32(8*len(msg)))
+		case 1, 2:
+			e.doMac("block-structured", key, cnt, b, d, msg)
+		default:
+			e.doEnc("block-structured", key, cnt, b, d, msg)
 		}
 	}
 
